@@ -242,6 +242,7 @@ type goGen struct {
 	fail      string
 	quantNote bool
 	needHsum  bool
+	needIte   bool
 }
 
 func (g *goGen) qual(p *types.Package) string {
@@ -686,7 +687,8 @@ func (c *clauseGen) call(e *SExpr) string {
 		return "(" + c.expr(e.Args[0]) + ").Unix()"
 	case "ite":
 		a := args()
-		return "func() interface{} { if " + a[0] + " { return " + a[1] + " }; return " + a[2] + " }()"
+		c.g.needIte = true
+		return "gcvIte(" + a[0] + ", " + a[1] + ", " + a[2] + ")"
 	case "matches":
 		a := args()
 		return imp("regexp", "regexp") + ".MustCompile(" + a[1] + ").MatchString(" + a[0] + ")"
@@ -949,6 +951,9 @@ func tryReplay(eng *Engine, verif string, o *Oblig, r *ReplayRecord) {
 	fmt.Fprintf(&body, "}\n")
 	if g.quantNote {
 		fmt.Fprintf(&body, "\nfunc gcvGuard(f func() bool, dflt bool) (r bool) {\n\tdefer func() {\n\t\tif recover() != nil {\n\t\t\tr = dflt\n\t\t}\n\t}()\n\treturn f()\n}\n")
+	}
+	if g.needIte {
+		fmt.Fprintf(&body, "\nfunc gcvIte[T any](c bool, a, b T) T {\n\tif c {\n\t\treturn a\n\t}\n\treturn b\n}\n")
 	}
 	if g.needHsum {
 		g.imports["crypto/hmac"] = "hmac"
